@@ -99,6 +99,8 @@ func runReplayTest(o *checkOpts, e replayEntry, thorough bool) testRun {
 	return tr
 }
 
+var loopPrefixRe = regexp.MustCompile(`^loop[0-9.]+\.`)
+
 var (
 	familyMu   sync.Mutex
 	familyRuns = map[string]testRun{}
@@ -124,7 +126,7 @@ func runReplayFamily(o *checkOpts, prog *Program, r *UnitResult, ob *Obligation)
 		specific := false
 		summary := tr.Summary
 		for _, l := range strings.Split(tr.Output, "\n") {
-			if strings.Contains(l, "REPLAY-CONFIRMED") && ob.Label != "" && strings.Contains(l, "["+ob.Label+"]") {
+			if strings.Contains(l, "REPLAY-CONFIRMED") && ob.Label != "" && (strings.Contains(l, "["+ob.Label+"]") || strings.Contains(l, "["+loopPrefixRe.ReplaceAllString(ob.Label, "")+"]")) {
 				specific = true
 				summary = strings.TrimSpace(l)
 				break
